@@ -16,6 +16,9 @@
 (*                guard before the fallback, NaN through np.floating too) - on the whole        *)
 (*                universe of MC_Eq: total, symmetric, transitive and equal to every pinned      *)
 (*                answer (cfg MC_EqMech_fixed.cfg).                                             *)
+(*   Real(u, v, mode)  the repaired recursion on realisation variants (insertion order, views  *)
+(*                into shared buffers, missing-value markers) and three shortcuts that look at  *)
+(*                the realisation instead of the value - each refuted by TLC (see below).       *)
 EXTENDS MC_Eq
 
 B(b) == IF b THEN "T" ELSE "F"
@@ -32,7 +35,7 @@ Size0(v)  == \E i \in 1..Len(Shape(v)) : Shape(v)[i] = 0
 PyFloatNaN(u) == Tag(u) = "nan" \/ (Tag(u) = "np" /\ Pay(u)[1] = "float64" /\ IsNaN(Pay(u)[2]))
 AnyNaN(u)     == IsLeaf(u) /\ IsNaN(Core(u))
 \* x is y: within one call only a NaN object can be shared between the two operands
-SameObject(u, v) == IsLeaf(u) /\ IsNaN(Core(u)) /\ Pay(Core(u)) # 0 /\ u = v
+SameObject(u, v) == IsLeaf(u) /\ ((IsNaN(Core(u)) /\ Pay(Core(u)) # 0 /\ u = v) \/ (IsNaT(u) /\ IsNaT(v)))   \* (pd.NaT is one object)
 \* x == y on two scalars
 LeafPy(u, v) == B(PyEqX(u, v))
 \* np.all(x == y) for a scalar x and the cells of y: elementwise ==, vacuously true without cells
@@ -124,10 +127,77 @@ TodayTotal     == ~done \/ Today(x, y) # "X"
 TodaySymmetric == ~done \/ ((Today(x, y) \in {"T", "F"} /\ Today(y, x) \in {"T", "F"}) => Today(x, y) = Today(y, x))
 TodayPinned    == ~done \/ (Today(x, y) \in {"T", "F"} => Pin(x, y) \in {"free", Today(x, y)})
 TodayCopies    == ~done \/ Today(x, Fresh(x)) # "F"
-\* ... and expected to HOLD for the repaired recursion, on the whole universe
-FixedTotal      == ~done \/ Fixed(x, y) \in {"T", "F"}
-FixedPinned     == ~done \/ Pin(x, y) \in {"free", Fixed(x, y)}
-FixedCopies     == ~done \/ Fixed(x, Fresh(x)) = "T"
-FixedSymmetric  == ~done \/ Fixed(x, y) = Fixed(y, x)
-FixedTransitive == ~done \/ \A z \in U : (Fixed(x, y) = "T" /\ Fixed(y, z) = "T") => Fixed(x, z) = "T"
+\* ... and expected to HOLD for the repaired recursion, on the whole universe (on the values of the
+\* realisation variants: sorted(x.items()) is the key order of the descriptor, the cells of a view are its cells)
+FixedTotal      == ~done \/ Fixed(NX, NY) \in {"T", "F"}
+FixedPinned     == ~done \/ LET nx == Norm(x)  ny == Norm(y) IN Pin(nx, ny) \in {"free", Fixed(nx, ny)}
+FixedCopies     == ~done \/ LET nx == Norm(x) IN Fixed(nx, Fresh(nx)) = "T"
+FixedSymmetric  == ~done \/ LET nx == Norm(x)  ny == Norm(y) IN Fixed(nx, ny) = Fixed(ny, nx)
+FixedTransitive == ~done \/ LET nx == Norm(x)  ny == Norm(y) IN Fixed(nx, ny) = "T" => \A z \in NU : Fixed(ny, z) = "T" => Fixed(nx, z) = "T"
+
+\* ---- the recursion on REALISATIONS, with the three shortcuts that look at the realisation ---------
+\* Real(u, v, mode) walks the concrete descriptors.  mode = "" is the code as it stands: the dict branch
+\* sorts the items, the array branch goes through the cells, the pandas branch through index, columns and
+\* cells - it must agree with Fixed on the values (RealIsFixed).  The other modes are plausible
+\* optimisations, each of which TLC must REFUTE against what the statement pins (must_fail cfgs
+\* MC_EqMech_real_*.cfg) - which also shows that the universe holds a witness for each of them:
+\*   "order"   dict branch compares keys() / values() in insertion order
+\*   "alias"   array branch answers True for two views of one buffer with the same dtype, shape and
+\*             strides whose address ranges overlap (np.may_share_memory)
+\*   "missing" pandas branch answers True when x.equals(y): None and NaN held as objects are interchangeable
+IsMap(c)  == Tag(c) \in {"m", "mo", "M", "Mo"}
+IsArr(c)  == Tag(c) \in {"a", "v"}
+IsPd(c)   == Tag(c) \in {"S", "F", "Sv", "Fv"}
+MapKind(c) == IF Tag(c) \in {"m", "mo"} THEN "m" ELSE "M:" \o Pay(c)[1]
+SortKvs(c) == CASE Tag(c) = "mo" -> Pay(c)[2] [] Tag(c) = "Mo" -> Pay(c)[3] [] OTHER -> Kvs(c)
+ArrDt(c)    == IF Tag(c) = "v" THEN VDt_(c) ELSE Pay(c)[1]
+ArrShape(c) == IF Tag(c) = "v" THEN VShp(c) ELSE Pay(c)[2]
+ArrCells(c) == IF Tag(c) = "v" THEN ViewCells(c) ELSE Pay(c)[3]
+PdKind(c)  == IF Tag(c) \in {"S", "Sv"} THEN "S" ELSE "F"
+PdIndex(c) == IF Tag(c) \in {"Sv", "Fv"} THEN Pay(c)[1] ELSE Pay(c)[2]
+PdCols(c)  == CASE Tag(c) = "F" -> Pay(c)[3] [] Tag(c) = "Fv" -> Pay(c)[2] [] OTHER -> <<>>
+PdCells(c) == CASE Tag(c) = "S" -> Pay(c)[3] [] Tag(c) = "F" -> Pay(c)[4] [] Tag(c) = "Sv" -> ViewCells(Pay(c)[2]) [] Tag(c) = "Fv" -> ViewCells(Pay(c)[3])
+PdDt(c)    == CASE Tag(c) = "Sv" -> VDt_(Pay(c)[2]) [] Tag(c) = "Fv" -> VDt_(Pay(c)[3]) [] OTHER -> Pay(c)[1]
+\* NDFrame.equals: same axes, same dtype, cells equal where None / NaN held as objects count as one missing value
+IsMissing(c) == Tag(c) \in {"n", "nan"}
+PandasEquals(u, v) ==
+    /\ PdDt(u) = PdDt(v) /\ SeqIdx(PdIndex(u), PdIndex(v)) = "T" /\ SeqIdx(PdCols(u), PdCols(v)) = "T"
+    /\ Len(PdCells(u)) = Len(PdCells(v))
+    /\ \A i \in 1..Len(PdCells(u)) : LET a == PdCells(u)[i]  b == PdCells(v)[i] IN
+           (IsMissing(a) /\ IsMissing(b)) \/ (IsLeaf(a) /\ IsLeaf(b) /\ PyEqX(a, b))
+SameLayout(u, v) == VDt_(u) = VDt_(v) /\ VShp(u) = VShp(v) /\ VStr_(u) = VStr_(v)
+KeyTup(kvs) == VTup([i \in 1..Len(kvs) |-> VStr(kvs[i][1])])
+ValTup(kvs) == VTup([i \in 1..Len(kvs) |-> kvs[i][2]])
+
+RECURSIVE Real(_, _, _)
+Real(u, v, mode) ==
+    IF SameObject(u, v) THEN "T"
+    ELSE IF Tag(u) \in {"t", "l"}
+    THEN IF Tag(v) # Tag(u) \/ Len(Pay(u)) # Len(Pay(v)) THEN "F"
+         ELSE AllOf([i \in 1..Len(Pay(u)) |-> Real(Pay(u)[i], Pay(v)[i], mode)])
+    ELSE IF IsArr(u)
+    THEN IF ~IsArr(v) \/ ArrShape(u) # ArrShape(v) THEN "F"
+         ELSE IF mode = "alias" /\ Tag(u) = "v" /\ Tag(v) = "v" /\ SameLayout(u, v) /\ MayShare(u, v) THEN "T"
+         ELSE AllOf([i \in 1..Len(ArrCells(u)) |-> Real(ArrCells(u)[i], ArrCells(v)[i], mode)])
+    ELSE IF IsPd(u)
+    THEN IF ~IsPd(v) \/ PdKind(v) # PdKind(u) THEN "F"
+         ELSE IF mode = "missing" /\ PandasEquals(u, v) THEN "T"
+         ELSE And2(SeqIdx(PdIndex(u), PdIndex(v)),
+              And2(SeqIdx(PdCols(u), PdCols(v)),
+                   IF Len(PdCells(u)) # Len(PdCells(v)) THEN "F"
+                   ELSE AllOf([i \in 1..Len(PdCells(u)) |-> Real(PdCells(u)[i], PdCells(v)[i], mode)])))
+    ELSE IF IsMap(u)
+    THEN IF ~IsMap(v) \/ MapKind(u) # MapKind(v) \/ Len(SortKvs(u)) # Len(SortKvs(v)) THEN "F"
+         ELSE IF SortKvs(u) = <<>> THEN "T"
+         ELSE LET ku == IF mode = "order" THEN InsKvs(u) ELSE SortKvs(u)
+                  kv == IF mode = "order" THEN InsKvs(v) ELSE SortKvs(v)
+              IN  And2(Real(KeyTup(ku), KeyTup(kv), mode), Real(ValTup(ku), ValTup(kv), mode))
+    ELSE IF ~IsLeaf(v) THEN "F"
+    ELSE IF AnyNaN(u) THEN B(AnyNaN(v))
+    ELSE LeafPy(u, v)
+
+RealIsFixed     == ~done \/ Real(x, y, "") = Fixed(Norm(x), Norm(y))
+RealOrderPinned   == ~done \/ PinC(x, y) \in {"free", Real(x, y, "order")}
+RealAliasPinned   == ~done \/ PinC(x, y) \in {"free", Real(x, y, "alias")}
+RealMissingPinned == ~done \/ PinC(x, y) \in {"free", Real(x, y, "missing")}
 =============================================================================
